@@ -24,6 +24,7 @@ var verifDir = "/verif"
 // loadProgram loads /repo's current working tree with the harness overlay.
 func loadProgram(replay bool) (*ssa.Program, *ssa.Package, error) {
 	overlay := map[string][]byte{}
+	overlay[filepath.Join(repoDir, "zz_verif_corpus.go")] = corpusSource()
 	files, _ := filepath.Glob(filepath.Join(verifDir, "harness", "*.go"))
 	for _, f := range files {
 		b, err := os.ReadFile(f)
@@ -146,7 +147,6 @@ func printResult(res *interp.Result) {
 }
 
 
-func cmdSelftest(args []string) { fmt.Println("not yet") }
 
 // native <Harness> [int args] [name=value ...]: run a harness natively on a
 // hand-given model (debugging aid). Strings are given as name=text.
